@@ -553,6 +553,11 @@ def c13(res, ctx):
         r, snap = i.split(' | ', 1)
         api = c.split('\t')[1]
         changed = snap != b
+        noclock = lambda s: ' '.join(x for j, x in enumerate(s.split(' ')) if j != 4)
+        if changed and noclock(snap) == noclock(b) and int(c.split('\t')[0].split(' ')[4]) + len(c.split('\t')[2].split(' ')) >= 4096:
+            # known finding halfmove_ge_4096 (listed in known_findings.txt): a make/unmake pair at a clock >= 4096
+            res.skipped['known finding halfmove_ge_4096 (clock reaches 4096 during the call)'] = res.skipped.get('known finding halfmove_ge_4096 (clock reaches 4096 during the call)', 0) + 1
+            continue
         if api in ('find', 'twice', 'pgn', 'san') and changed:
             if k < MAXREP: res.violation('ucistr', c, b, snap, 'property', 'a query / rejected move changed the position')
             k += 1
@@ -807,7 +812,9 @@ def run_check(pid, tier, seed):
     if tier == 'thorough':
         ok, report = V.coqchk(pid)
         extra['coqchk'] = {'ok': ok, 'report': report}
-        if not ok:
+        if ok is None:
+            res.notes.append(report)
+        elif not ok:
             res.violation('proof', None, None, None, 'coqchk', 'coqchk rejects the compiled property file: ' + report[-600:], suffix='no-failing-input-found')
     return V.finish(res, proofs, rule=rule, assumptions=ASSUME.get(pid, []), extra=extra)
 
